@@ -6,6 +6,7 @@ Correspondence: Message.to_wire at *every* limit from below 512 to len+2 for eac
 block of the pool, and step-by-step Renderer traces (working tree) vs lean/Model/Render.lean through the driver.
 Oracle: the property clauses evaluated directly on the implementation for every distinct rendering.
 """
+from harness.core import Stalled as _Stalled
 import glob
 import json
 import os
@@ -363,6 +364,8 @@ def eval_robj(ctx: Ctx, c: dict):
                     else:
                         r.add_rrset(sec, rrb, want_shuffle=False)
                 except BaseException as e:  # noqa: BLE001 — the injected failure, whatever its class
+                    if isinstance(e, _Stalled):
+                        raise
                     got = type(e)
                 ctx.count("robj.boom." + spec["how"])
                 if got is not want:
